@@ -607,6 +607,16 @@ def suite(prop, rng, tier):
     elif prop == "C17":
         for i in range(N(350, 5000)):
             cases.append(rand_history(rng, rng.randint(8, 40), MENU_ALL_SAFE, adv=1, seed=rng.getrandbits(48)).line())
+        # get_disjoint_mut is the one safe operation whose internal bookkeeping (a scratch stack of J hits) rests on a
+        # counting argument about == : under every kind of misbehaving == (more stored keys matching one needle than
+        # there are needles, needles matching several keys) it may panic or answer wrongly, never touch foreign memory
+        menu_d = [(5, lambda g: g.ins(m_reg(g))), (6, lambda g: g.disjoint(m_reg(g), j=g.r.randint(2, 4))),
+                  (1, lambda g: g.rem(m_reg(g))), (1, lambda g: g.lookup(m_reg(g)))]
+        for i in range(N(150, 2000)):
+            sd = rng.getrandbits(48)
+            if i % 2:
+                sd = sd - sd % 5 + 3          # every second one under the operand-determined asymmetric kind
+            cases.append(rand_history(rng, rng.randint(6, 24), menu_d, adv=1, seed=sd, ncls=rng.choice([3, 6, 9])).line())
     elif prop == "C18":
         rnd(MENU_MAP_CORE + scale(MENU_MAP_UNCHECKED, 3), N(300, 5000), (10, 40))
         # insert_unchecked under a MISBEHAVING == (non-reflexive, always / never equal, alternating): its precondition
@@ -643,6 +653,18 @@ def suite(prop, rng, tier):
         caps = None if rng.random() < 0.7 else [17, 8, 17, 4]
         cases.append(rand_history(rng, rng.randint(8, 36), MENU_ALL_SAFE, adv=1, seed=rng.getrandbits(40) * 5 + 3,
                                   caps=caps, ncls=(24 if caps else 6)).line())
+    # ... the same kind on SMALL containers (full states, where the overflow / replace-on-full paths scan) and with the
+    # property's own mix of operations
+    own = {"C01": MENU_MAP_CORE, "C03": MENU_MAP_CORE + MENU_MAP_ENTRY + MENU_MAP_BULK + MENU_SET_CORE + MENU_SET_BULK,
+           "C07": MENU_SET_CORE, "C08": scale(MENU_SET_CORE, 0.5) + scale(MENU_SET_ALG, 2),
+           "C11": MENU_MAP_CORE + scale(MENU_MAP_ENTRY, 4), "C12": MENU_MAP_CORE + MENU_MAP_ENTRY + MENU_SET_CORE,
+           "C13": MENU_MAP_CORE + scale(MENU_MAP_DISJ, 4), "C16": MENU_MAP_CORE + MENU_MAP_BULK + MENU_SET_CORE + MENU_SET_BULK,
+           "C19": scale(MENU_MAP_CORE, 0.5) + scale(MENU_MAP_FMT, 2) + MENU_SET_CORE + scale(MENU_SET_FMT, 2) + scale(MENU_SET_ALG, 4),
+           "C20": MENU_MAP_CORE + scale(MENU_MAP_SERDE, 4) + MENU_SET_CORE + scale(MENU_SET_SERDE, 4)}.get(prop, MENU_ALL_SAFE)
+    for _ in range(N(200, 2000)):
+        caps = rng.choice([[2, 2, 2, 2], [3, 3, 3, 3], [1, 2, 3, 4], [4, 3, 2, 1], [4, 4, 4, 4]])
+        cases.append(rand_history(rng, rng.randint(8, 30), own, adv=1, seed=rng.getrandbits(40) * 5 + 3,
+                                  caps=list(caps), ncls=rng.choice([4, 6, 9])).line())
     if prop not in ("C02", "C04", "C05", "C06"):
         # every suite also carries a slice of whole-API histories: the theorems of every property rest on the
         # same model, so a correspondence break anywhere concerns them all (those four suites draw from MENU_ALL already)
@@ -983,12 +1005,16 @@ def panic_slice_bases():
     cfg = "0 0 0 0 8 8 8 8"
     mids = ["32 0 0 0", "32 0 1 2 6 0 7 0", "32 0 2 1 6 0", "33 0", "34 0 1 0", "34 0 2 2", "30 0 0 6", "31 0 0 5",
             "10 0 30 6 31 3", "11 0 30 6 31 3", "12 0 30 9 31 3", "62 0 0 4 30 9 31 1 32 6 33 2 34 9 35 3 36 5 37 4",
-            "41 0 0 1 2", "43 0 1 1", "66 0 1"]
+            "41 0 0 1 2", "43 0 1 1", "66 0 1",
+            # From<[(K, V); N]> with repeated classes: every pair of the array -- stored, displaced or not yet reached
+            # when a callback unwinds -- has exactly one owner
+            "62 0 1 8 " + " ".join(f"{60 + 2 * i} {c} {61 + 2 * i} {i}" for i, c in enumerate([9, 9, 6, 5, 9, 3, 6, 4]))]
     mids += [f"50 0 30 9 {ch} 31 3" for ch in range(12)] + [f"50 0 30 6 {ch} 31 3" for ch in (0, 1, 5, 6, 7, 9, 10)]
     for m in mids:
         b.append(f"{cfg} ; {fill_m} ; {m} ; {tail_m}")
     sids = ["132 2 0 0", "132 2 1 2 6 0 7 0", "133 2", "134 2 1 0", "134 2 2 2", "130 2 0 6", "131 2 0 5", "110 2 30 6",
-            "111 2 30 6", "135 2 4 30 9 31 6 32 9 33 5", "162 2 0 4 30 9 31 6 32 9 33 5", "141 2 1 2", "166 2 3", "172 2 3"]
+            "111 2 30 6", "135 2 4 30 9 31 6 32 9 33 5", "162 2 0 4 30 9 31 6 32 9 33 5", "141 2 1 2", "166 2 3", "172 2 3",
+            "162 2 1 8 " + " ".join(f"{60 + i} {c}" for i, c in enumerate([9, 9, 6, 5, 9, 3, 6, 4]))]
     for m in sids:
         b.append(f"{cfg} ; {fill_s} ; 110 3 20 6 ; 110 3 21 9 ; {m} ; {tail_s}")
     return b
